@@ -45,15 +45,17 @@ class CInterp(vecint.VInterp):
 
 def run(F, run, tier):
     NMAX = 20
-    tol = sp.Symbol("tol_req", positive=True)
     total = 0
+    # both ends of the property's tolerance range: comparisons of genuine (tiny) coefficients with the zero tolerance are decided exactly
+    TOLS = [sp.Rational(1, 10 ** 6), sp.Rational(1, 10 ** 14)]
     for fam, (path, ref) in FAMILIES.items():
-        b = F.fn(path)
-        run.analysed(b)
-        where = F.loc(b)
+      b = F.fn(path)
+      run.analysed(b)
+      where = F.loc(b)
+      for tol in TOLS:
         fft_ns = []
         for n in range(0, NMAX + 1):
-            inst = "n=%d" % n
+            inst = "n=%d,tol=1e-%d" % (n, len(str(tol.q)) - 1)
             try:
                 v, it = PI.call(F, b, [sp.Integer(n), tol], seconds=60, cls=CInterp)
             except FftEntered:
@@ -81,11 +83,11 @@ def run(F, run, tier):
                       "%s(%d) has %d coefficients (leading %s): the degree is not exactly n" % (fam, n, len(cs), cs[-1] if cs else None))
             run.check(P.get("tolerance") == tol, "R18.3", path, "tolerance:" + inst, where,
                       "the returned polynomial's zero tolerance is %s, not the requested one" % P.get("tolerance"))
-        run.check(not fft_ns, "R18.4", path, "exact-path", where,
+        run.check(not fft_ns, "R18.4", path, "exact-path:tol=1e-%d" % (len(str(tol.q)) - 1), where,
                   "for n in %s the constructor multiplies two polynomials of three or more coefficients, which goes through the floating-point FFT (dft/idft): "
                   "the coefficients are no longer exact and spurious leading noise raises the degree" % (fft_ns[:12],),
                   sample="%s: every product has a factor with at most two coefficients" % fam)
-    run.floor("R18.1", "special::polynomial", "constructor evaluations", total, 60)
+    run.floor("R18.1", "special::polynomial", "constructor evaluations", total, 200)
     run.extra["exhaustive"] = True
     run.assumptions += ["exact rational arithmetic stands for the floating-point evaluation (the statement's 'up to rounding')",
                         "classical polynomials: sympy.legendre/hermite/laguerre/chebyshevt/chebyshevu"]
